@@ -266,6 +266,14 @@ def D28():
     wrapped = eao.io.extract_output(pf, op, op.optimize(), pr)['prices']['nodal price: B'].values
     return f"nodal price at B: flat {np.round(flat, 2)}, with source+transport wrapped {np.round(wrapped, 2)}; N rows={op.cType.count('N')} records={len(op.map_nodal_restr)}"
 
+@witness
+def D29():
+    tgz = grid(timezone='CET'); pr = sine(tgz)
+    print('   sibling (take period with naive dates on CET grid):', len(A.Contract(name='c', nodes=N1, price='p', min_cap=-1, max_cap=1, min_take={'start': dt.datetime(2021, 1, 1, 2), 'end': dt.datetime(2021, 1, 1, 8), 'values': -2.}).setup_optim_problem(pr, tgz).c), 'variables, no error')
+    orders = {'start': [pd.Timestamp(2021, 1, 1, 2)], 'end': [pd.Timestamp(2021, 1, 1, 4)], 'capa': [1.], 'price': [3.]}
+    A.OrderBook(name='ob', nodes=N1, orders=orders).setup_optim_problem(pr, tgz)
+    return 'no error'
+
 if __name__ == '__main__':
     which = sys.argv[1:] or list(W)
     for k in which:
